@@ -1022,11 +1022,16 @@ func runC14(c *Ctx, out string) {
 			}
 			if i > 0 && rs[i-1].Status == "ok" {
 				p := rs[i-1]
+				// growth of the input: bytes, or the family parameter when a constant prefix dominates the small sizes
 				grow := float64(r.Size) / float64(p.Size)
+				if g2 := float64(r.N) / float64(p.N); g2 > grow {
+					grow = g2
+				}
 				lim := grow * grow * grow * 1.25 // degree <= 3 per size ratio, with slack
 				for _, m := range [][3]interface{}{{"Satisfies", r.SatAlloc, p.SatAlloc}, {"ExtractLicenses+ValidateLicenses", r.ExtAlloc, p.ExtAlloc}} {
 					cur, prev := float64(m[1].(int64)), float64(m[2].(int64))
-					if prev > 4096 && cur/prev > lim {
+					// the law is about asymptotic growth: below a few megabytes constant costs (tables, regexps) dominate
+					if prev > 4096 && cur > 4<<20 && cur/prev > lim {
 						cc.fail(m[0].(string), args, fmt.Sprintf("allocation grew x%.1f (%d -> %d bytes) while the input grew x%.2f", cur/prev, m[2], m[1], grow), fmt.Sprintf("growth <= x%.1f (cubic in the input growth, 25%% slack)", lim), "TotalAlloc delta at n and 2n")
 					}
 				}
